@@ -2,6 +2,7 @@ SPECIFICATION Spec
 CONSTANTS
   EMIT = TRUE
 INVARIANT FixedWidth
+INVARIANT EdgePreserved
 INVARIANT TableTotal
 INVARIANT Emit
 CHECK_DEADLOCK FALSE
